@@ -152,7 +152,12 @@ def sideFails (fd : Nat) (pre post : GBal) (fee : Option Coin) : List String :=
       let y := coinAmt post.cw20 c.key
       decide (1 ≤ y) && decide (y ≤ c.amount) && decide (2 * (c.amount - y) ≤ c.amount)) &&
     nftCodes pre.nfts == nftCodes post.nfts
-  (if fOk then [] else ["f"]) ++ (if wOk then [] else ["w"]) ++ (if hOk then [] else ["h"])
+  -- `d`: the fee is charged in the denomination in force (C13)
+  let dOk := match fee with
+    | some f => decide (f.key = fd)
+    | none => decide (coinAmt pre.native fd * 5 / 1000 = 0)
+  (if fOk then [] else ["f"]) ++ (if wOk then [] else ["w"]) ++ (if hOk then [] else ["h"]) ++
+  (if dOk then [] else ["d"])
 
 /-- purchase oracle: fee and royalty bounds on both traded records -/
 def buyOracle (a b : World) (lid bid : Nat) : List String :=
